@@ -81,7 +81,8 @@ CLAIMED["C12"] = (
     "unit; ledger of (key, nonce) pairs) and that four named deviations reuse a pair; the real encoders of every protocol, cipher and direction (streams and datagrams, writes from 1 byte to "
     "70 000 bytes, many sessions) are driven, their output is opened by the reference opener, and TLC validates every session's unit trace: counters 0,1,2,.., no pair twice, grammar, "
     "limits, and all salts / session ids / VMess keys, IVs, auth ids and connection nonces pairwise distinct; SentFresh: codecs created at one clock offset and first used 0 / 31 / 45 / 300 s "
-    "later (clock hook) must stamp their first unit with the time of sending (deviation StampAtCreate).",
+    "later (clock hook) must stamp their first unit with the time of sending (deviation StampAtCreate); replies read by the client between its datagrams must not touch "
+    "its own counter; end to end, the visible (key, nonce) identifier of every datagram on a real link is pairwise distinct per direction across the sessions of one server process.",
     TB + "; reference opener recovers the nonce of every unit", "5.12")
 CLAIMED["C03"] = (
     "model_checking", "TLA+ WireScripts catalogue + Wire/TraceWire grammar; every script run in both directions between the real codecs and an independent reference codec; unit traces validated by TLC",
